@@ -817,7 +817,8 @@ def _param_strategy(engine, fam):
         ("pandas", "arrow_ts"): st.fixed_dictionaries({"unit": st.sampled_from(UNITS4), "tz": st.sampled_from([None] + TZS)}),
         ("pandas", "arrow_dur"): st.fixed_dictionaries({"unit": st.sampled_from(UNITS4)}),
         ("pandas", "arrow_time"): st.fixed_dictionaries({"unit": st.sampled_from(UNITS4)}),
-        ("pandas", "arrow_dec"): prec.map(lambda t: {"p": t[0], "s": t[1]}),
+        # pyarrow itself allows a negative scale and a scale above the precision: legitimate native types (round 8)
+        ("pandas", "arrow_dec"): st.one_of(prec, st.tuples(st.integers(1, 38), st.integers(-6, 44))).map(lambda t: {"p": t[0], "s": t[1]}),
         ("pandas", "arrow_bin"): st.fixed_dictionaries({"n": st.integers(1, 16)}),
         ("pandas", "arrow_list"): st.fixed_dictionaries({"elem": st.sampled_from(_PA_ELEMS), "n": st.one_of(st.none(), st.integers(1, 4))}),
         ("pandas", "arrow_struct"): st.fixed_dictionaries({"fields": fields}),
